@@ -1400,21 +1400,27 @@ impl<'a, R: FileManager> FrontendCtx<'a, R> {
         }
 
         let inferred = self.extract_ts_type_lit_members(&typ.body.body, file.clone());
+        // the heritage clause is written inside the interface as well: `extends Base<T>` means the interface's own `T`
+        let ext = if typ.extends.is_empty() {
+            None
+        } else {
+            Some(self.extract_interface_extends(&typ.extends, file.clone()))
+        };
 
         self.type_application_stack = outer_stack;
 
         let r = inferred;
 
-        let runtype = if typ.extends.is_empty() {
-            r
-        } else {
-            let ext = self.extract_interface_extends(&typ.extends, file.clone())?;
+        let runtype = if let Some(ext) = ext {
+            let ext = ext?;
             let merged = Runtype::all_of(ext.into_iter().chain(std::iter::once(r?)).collect());
             let res = self.extract_object_from_runtype(&merged, &anchor);
             match res {
                 Ok(vs) => Ok(Runtype::object(vs.into_iter().collect())),
                 Err(_) => Ok(merged),
             }
+        } else {
+            r
         }?;
 
         Ok(self.with_jsdoc(&file, typ.span, runtype))
